@@ -100,6 +100,15 @@ def add_name_clashes(rng, pkg: pg.Pkg) -> None:
         pkg.inits.setdefault(tuple(home), []).append(pg.Reexport("modalias", deep.qname, None, None, "rel"))
         if len(home) > 1:
             pkg.inits.setdefault(tuple(home), []).append(pg.Reexport("name", wide.qname, f"wide_fn{n}", None, "abs"))
+        # declarations named like a segment of the re-exporting package's own path, or like the beginning of one
+        if len(home) > 1 and rng.random() < 0.7:
+            seg = home[-1]
+            names_ = list(dict.fromkeys([seg, seg[: max(2, len(seg) // 2)], home[1][:3]]))
+            names_ = [x for x in names_ if x.isidentifier() and not pg.is_private_name(x)]
+            src = pg.Mod(home, f"_pathnames{n}", decls=[pg.Fn(x, [pg.Param("q", "int")], "int") for x in names_])
+            pkg.modules.append(src)
+            for x in names_:
+                pkg.inits.setdefault(tuple(home), []).append(pg.Reexport("name", src.qname, x, None, "rel"))
         # a function (and a class) of a private module re-exported under an alias that is also the name of a public sibling
         # module with content of its own: <pkg>/<alias>.sdsstub (the declaration) next to <pkg>/<alias>/<alias>.sdsstub (the module)
         if rng.random() < 0.6:
